@@ -87,8 +87,11 @@ class _StubTcs:
 class Runner:
     """One real FaultLog + the simulated controller; `apply(ev)` performs one abstract event."""
 
-    def __init__(self, depth: int) -> None:
+    def __init__(self, depth: int, dispatch: bool = True) -> None:
         self.depth = depth
+        # dispatch=False: a gateway configured not to route messages to its entities (config.reduce_processing =
+        # DONT_UPDATE_ENTITIES): the replies to get_faultlog's own requests reach it as the result of its send only
+        self.dispatch = dispatch
         self.clog: list[int] = []
         self.nts = 0
         self.fl = FaultLog(_StubTcs())  # the real object
@@ -158,7 +161,8 @@ class Runner:
                 n = self._at(idx)
                 ts = self._last_ts = n or 0
                 ridx = idx if n is not None else 0  # a real controller answers a null entry with idx 00
-                fl.handle_msg(Message(mk_pkt(RP, ridx, n)))  # the dispatcher's delivery comes first
+                if self.dispatch:
+                    fl.handle_msg(Message(mk_pkt(RP, ridx, n)))  # the dispatcher's delivery comes first
                 try:
                     self.pending = self.coro.send(mk_pkt(RP, ridx, n))  # then get_faultlog resumes
                 except StopIteration as stop:
@@ -171,7 +175,8 @@ class Runner:
                     idx = int(self.pending.payload[4:6], 16)
                     n = self._at(idx)
                     ridx = idx if n is not None else 0
-                    fl.handle_msg(Message(mk_pkt(RP, ridx, n)))
+                    if self.dispatch:
+                        fl.handle_msg(Message(mk_pkt(RP, ridx, n)))
                     try:
                         self.pending = self.coro.send(mk_pkt(RP, ridx, n))
                     except StopIteration as stop:
@@ -210,8 +215,19 @@ class Runner:
             self.coro = None
 
 
-def run_history(events, depth: int) -> list[dict]:
-    r = Runner(depth)
+def nodispatch(events) -> tuple:
+    """The history as a gateway that does not route messages to its entities lives it: nothing overheard or announced
+    reaches the fault log (announcements count as lost, other devices' replies are not seen)."""
+    out = []
+    for k, a, b in events:
+        if k in ("reply", "again"):
+            continue
+        out.append((k, 0, b) if k in ("new", "clear") else (k, a, b))
+    return tuple(out)
+
+
+def run_history(events, depth: int, dispatch: bool = True) -> list[dict]:
+    r = Runner(depth, dispatch)
     out = []
     try:
         for e in events:
